@@ -1,7 +1,6 @@
 package handler
 
 import (
-	"bytes"
 	"errors"
 	"fmt"
 	"io"
@@ -238,17 +237,19 @@ func (h *Handler) HandleReadFile(ctx *Context, limit uint32, offset uint64, wr s
 		return fmt.Errorf("seek failed: %w", err)
 	}
 
-	var buf bytes.Buffer
-
-	n, err := buf.ReadFrom(io.LimitReader(ctx.State.ROFile, int64(limit)))
+	// what can be delivered is known from the size of the opened file: announce it and stream the data instead of
+	// collecting up to 4 GiB in memory first
+	stat, err := ctx.State.ROFile.Stat()
 	if err != nil {
-		return fmt.Errorf("read failed: %w", err)
+		return fmt.Errorf("stat failed: %w", err)
 	}
+
+	n := min(int64(limit), max(stat.Size()-int64(offset), 0))
 
 	log.DebugContext(ctx, "Read file", slog.Int64("read", n))
 
 	wr.WriteHeader(int32(n))
-	_, err = buf.WriteTo(wr)
+	_, err = h.Copier.CopyN(wr, ctx.State.ROFile, n)
 	return err
 }
 
